@@ -29,6 +29,7 @@ func checkC09(c *Ctx) {
 	ruleReaderWindow(c, "C09")
 	ruleParaRestStart(c)
 	ruleReaderDist(c)
+	ruleStartNonBlank(c)
 }
 
 // readerCtor reports a call that builds an inlineByteReader from a node window and a position:
@@ -177,12 +178,19 @@ func ruleReaderWindow(c *Ctx, prop string) {
 			}
 			site := 0
 			eachInstr(fn, func(in ssa.Instruction) {
-				call, w, pos, ok := readerCtor(p, in)
-				if !ok {
-					return
-				}
-				wi, ok := restWindow(w)
-				if !ok {
+				var call *ssa.Call
+				var pos ssa.Value
+				var wi ssa.Instruction
+				if cc, w, ps, ok := readerCtor(p, in); ok {
+					sl, ok := restWindow(w)
+					if !ok {
+						return
+					}
+					call, pos, wi = cc, ps, sl
+				} else if cc, ps, ok := restReaderWrapperCall(p, in); ok {
+					// a helper that builds the reader over the remaining lines: the window is taken when it is called
+					call, pos, wi = cc, ps, cc
+				} else {
 					return
 				}
 				srcs := scannerSources(p, pos)
@@ -214,7 +222,7 @@ func ruleReaderWindow(c *Ctx, prop string) {
 							if x == ssa.Instruction(s) {
 								return
 							}
-							if x == ssa.Instruction(wi) && resynced {
+							if x == wi && resynced {
 								hit = true
 								return
 							}
@@ -297,7 +305,7 @@ func pathHits(from, to ssa.Instruction, hit func(ssa.Instruction) bool) bool {
 }
 
 func ruleParaRestStart(c *Ctx) {
-	c.Rule("PARA-REST-START", "Where a paragraph's onClose hook splits leading link reference definitions off a paragraph, what remains starts where the line-jumping reader stood right after the line ending that ends the definition. (provenance) Every value stored into the Start of the remaining block's span — followed through a helper's parameter to its call sites — is a load of an inlineByteReader's pos field (of the reader or of a saved copy), possibly clamped to the Start of the first child kept; never a value returned as 'end of line' (a raw offset that differs from the reader's position by the container prefix of the next line), never a position adjusted by a byte count. (pairing) That position belongs to the same moment as the End given to the definition block just before: if End is the result of an end-of-line scan E over reader r, the position is r.pos with no call that is handed r between E and the load, or the pos of a copy of *r made after E with no such call in between. (children) The children kept are looked up at that same position.")
+	c.Rule("PARA-REST-START", "Where a paragraph's onClose hook splits leading link reference definitions off a paragraph, what remains starts where the line-jumping reader stood right after the line ending that ends the definition. (provenance) Every value stored into the Start of the remaining block's span — followed through a helper's parameter to its call sites — is a load of an inlineByteReader's pos field (of the reader or of a saved copy), possibly clamped to the Start of the first child kept; never a value returned as 'end of line' (a raw offset that differs from the reader's position by the container prefix of the next line), never a position adjusted by a byte count. (pairing) That position belongs to the same moment as the End given to the definition block just before: if End is the result of an end-of-line scan E over reader r, the position is r.pos with no call that is handed r between E and the load, or the pos of a copy of *r made after E with no such call in between. (children) The children kept are looked up at that same position. (resume) Where that position comes from a saved copy and the reader has been used since the copy was taken, the copy is put back into the reader before the reader is used again.")
 	p := c.P
 	n := 0
 	readerPosLoad := func(v ssa.Value) (*ssa.UnOp, ssa.Value, bool) { // the load, and the reader (pointer or local copy) it reads
@@ -337,7 +345,7 @@ func ruleParaRestStart(c *Ctx) {
 			if tn, f, _ := fieldAddrInfo(inner); tn != "Block" || f != "span" {
 				return
 			}
-			blk, ok := inner.X.(*ssa.Parameter)
+			blk, ok := spilledParam(inner.X)
 			if !ok {
 				return
 			}
@@ -472,6 +480,19 @@ func ruleParaRestStart(c *Ctx) {
 							bad = "the position is read from a reader that is not a copy of the one the definition was scanned with"
 						} else if pathHits(ecall, cp, takesR) {
 							bad = "the saved copy of the reader was made after further scanning behind the line ending that ends the definition"
+						} else if pathHits(cp, s.at, takesR) {
+							// (resume) the reader has moved on since the copy was taken: before it is used again it is put back
+							restores := func(x ssa.Instruction) bool {
+								st, ok := x.(*ssa.Store)
+								if !ok || st.Addr != r {
+									return false
+								}
+								src, ok := st.Val.(*ssa.UnOp)
+								return ok && src.Op == token.MUL && src.X == ssa.Value(al)
+							}
+							if reachesUseWithout(s.at, takesR, restores) {
+								bad = "the rest of the paragraph starts at the saved position, but scanning for the next definition goes on with the reader where the look-ahead for a title left it (the saved copy is not put back): the next definition is recognised from a position past the indentation of its line"
+							}
 						}
 					}
 				}
@@ -545,6 +566,18 @@ func ruleReaderDist(c *Ctx) {
 							w(e, d+1)
 						}
 					}
+					// a position kept in a field of a local (result.span.Start = r.pos … r.pos - result.span.Start)
+					if ld, ok := v.(*ssa.UnOp); ok && ld.Op == token.MUL {
+						if path, root, ok := localFieldPath(ld.X); ok {
+							eachInstr(fn, func(x ssa.Instruction) {
+								if st, ok := x.(*ssa.Store); ok {
+									if p2, r2, ok := localFieldPath(st.Addr); ok && r2 == root && p2 == path {
+										w(st.Val, d+1)
+									}
+								}
+							})
+						}
+					}
 				}
 				w(bo.Y, 0)
 				if !isPos {
@@ -578,4 +611,132 @@ func ruleReaderDist(c *Ctx) {
 	if n == 0 {
 		c.OK("READER-DIST", "none", token.NoPos, "no difference of reader positions outside the reader's methods")
 	}
+}
+
+// localFieldPath: addr is a chain of field addresses rooted at a local allocation; returns the field index path.
+func localFieldPath(addr ssa.Value) (string, *ssa.Alloc, bool) {
+	path := ""
+	for i := 0; i < 6; i++ {
+		switch x := addr.(type) {
+		case *ssa.FieldAddr:
+			path = fmt.Sprintf(".%d", x.Field) + path
+			addr = x.X
+			continue
+		case *ssa.Alloc:
+			return path, x, path != ""
+		}
+		break
+	}
+	return "", nil, false
+}
+
+// restReaderWrapperCall: in is a call of a module function that is handed the inline state and a position and returns
+// a reader built (by a reader constructor) over state.unparsed[state.unparsedPos:] at that position.
+func restReaderWrapperCall(p *Program, in ssa.Instruction) (*ssa.Call, ssa.Value, bool) {
+	call, ok := in.(*ssa.Call)
+	if !ok {
+		return nil, nil, false
+	}
+	g := call.Call.StaticCallee()
+	if g == nil || !p.InModule(g) || g.Blocks == nil || g.Signature.Results().Len() != 1 || typeName(deref(g.Signature.Results().At(0).Type())) != "inlineByteReader" {
+		return nil, nil, false
+	}
+	if _, _, _, isCtor := readerCtor(p, in); isCtor {
+		return nil, nil, false
+	}
+	// every return of g returns a reader constructor's result over the rest window at one of g's int parameters
+	var posParam *ssa.Parameter
+	good := true
+	nret := 0
+	for _, r := range returnsOf(g) {
+		nret++
+		if len(r.Results) != 1 {
+			good = false
+			continue
+		}
+		inner, isInstr := r.Results[0].(ssa.Instruction)
+		if !isInstr {
+			good = false
+			continue
+		}
+		_, w, ps, ok := readerCtor(p, inner)
+		if !ok {
+			good = false
+			continue
+		}
+		if _, ok := restWindow(w); !ok {
+			good = false
+			continue
+		}
+		prm, ok := ps.(*ssa.Parameter)
+		if !ok || (posParam != nil && prm != posParam) {
+			good = false
+			continue
+		}
+		posParam = prm
+	}
+	if !good || nret == 0 || posParam == nil {
+		return nil, nil, false
+	}
+	for i, prm := range g.Params {
+		if prm == posParam && i < len(call.Call.Args) {
+			return call, call.Call.Args[i], true
+		}
+	}
+	return nil, nil, false
+}
+
+// reachesUseWithout: some path from (after) instruction from reaches an instruction satisfying use without first
+// executing one satisfying fix.
+func reachesUseWithout(from ssa.Instruction, use, fix func(ssa.Instruction) bool) bool {
+	seen := map[*ssa.BasicBlock]bool{}
+	found := false
+	var run func(b *ssa.BasicBlock, start int)
+	run = func(b *ssa.BasicBlock, start int) {
+		for _, x := range b.Instrs[start:] {
+			if fix(x) {
+				return
+			}
+			if use(x) {
+				found = true
+				return
+			}
+		}
+		for _, nb := range b.Succs {
+			if !seen[nb] && !found {
+				seen[nb] = true
+				run(nb, 0)
+			}
+		}
+	}
+	run(from.Block(), instrIndex(from)+1)
+	return found
+}
+
+// spilledParam: v is a parameter, or a load of the cell a parameter was spilled into because a closure captures it
+// (the cell is stored exactly once, with the parameter).
+func spilledParam(v ssa.Value) (*ssa.Parameter, bool) {
+	if q, ok := v.(*ssa.Parameter); ok {
+		return q, true
+	}
+	u, ok := v.(*ssa.UnOp)
+	if !ok || u.Op != token.MUL {
+		return nil, false
+	}
+	al, ok := u.X.(*ssa.Alloc)
+	if !ok {
+		return nil, false
+	}
+	var q *ssa.Parameter
+	n := 0
+	for _, r := range refsOf(al) {
+		if st, ok := r.(*ssa.Store); ok && st.Addr == ssa.Value(al) {
+			n++
+			q, _ = st.Val.(*ssa.Parameter)
+		}
+	}
+	if n == 1 && q != nil {
+		return q, true
+	}
+	return nil, false
 }
